@@ -339,7 +339,37 @@ def rare_evidence_program(rng):
     return prog
 
 
-def programs(seed, n, extreme=False, **kw):
+def compound_program(rng):
+    """Profile for the metamorphic checks only (the possible-world reference has no function symbols): a predicate
+    p/1 over compound terms f(1), f(2), g(1), ... with ground and *non-ground* heads (p(f(_)), p(_)), nullary
+    wrappers that call it with different instantiation patterns (p(_), p(f(_)), p(f(1))), ground queries on
+    instances and wrappers.  Answers of the non-ground calls are partly non-ground terms."""
+    prog = []
+    facts = [("a", ()), ("b", ()), ("c", ())]
+    for f in facts:
+        prog.append(("fact", rng.choice(PROBS), f))
+    heads = ["f(1)", "f(2)", "g(1)", "g(2)", "f(_)", "g(_)", "_", "f(1)"]
+    for _ in range(rng.randint(2, 5)):
+        body = [(rng.random() < 0.85, rng.choice(facts)) for _ in range(rng.randint(1, 2))]
+        prog.append(("rule", ("p", (rng.choice(heads),)), body))
+    wrappers = [("q", "_"), ("r", "f(_)"), ("s", "f(1)"), ("t", "g(_)")]
+    rng.shuffle(wrappers)
+    used = wrappers[:rng.randint(1, 3)]
+    for w, pat in used:
+        prog.append(("rule", (w, ()), [(True, ("p", (pat,)))]))
+    qs = [(w, ()) for w, _ in used] + [("p", (rng.choice(["f(1)", "f(2)", "g(1)", "g(2)", "h(1)"]),)) for _ in range(2)]
+    rng.shuffle(qs)
+    seen = []
+    for q in qs[:rng.randint(2, 4)]:
+        if q not in seen:
+            seen.append(q)
+            prog.append(("query", q))
+    if rng.random() < 0.3:
+        prog.append(("evidence", rng.choice(facts), rng.random() < 0.5))
+    return prog
+
+
+def programs(seed, n, extreme=False, compound=False, **kw):
     """extreme=True: in a third of the programs one probabilistic fact gets probability 0.0 or 1.0 (valid
     annotations at the border of the range; weight propagation and log space treat them specially)."""
     rng = random.Random(seed)
@@ -351,6 +381,8 @@ def programs(seed, n, extreme=False, **kw):
         r = rng.random()
         if extreme and r > 0.92:
             p = rare_evidence_program(rng)
+        elif compound and r > 0.85:
+            p = compound_program(rng)
         elif g.neg_cycles and r < 0.5:
             p = negcycle_program(rng, evidence=g.evidence)
         elif not g.neg_cycles and g.recursion and r < 0.25:
